@@ -217,6 +217,9 @@ func (e *c09Env) canary(fuzzedBucket string) []disc {
 	return ds
 }
 
+// c09EdgeInts are values at the edges of the integer types a count or marker may be parsed into.
+var c09EdgeInts = []string{"0", "2147483647", "2147483648", "4294967295", "4294967296", "9223372036854775806", "9223372036854775807"}
+
 // sweep sends the listing requests of every kind with small page sizes and the markers the
 // server hands back, and demands a well-formed answer for each.
 func (e *c09Env) sweep(cs c09Case) []disc {
@@ -238,6 +241,13 @@ func (e *c09Env) sweep(cs c09Case) []disc {
 		return r, d
 	}
 	for _, b := range buckets {
+		for _, v := range c09EdgeInts {
+			for _, q := range [][][2]string{s3x.Q("max-keys", v), s3x.Q("list-type", "2", "max-keys", v), s3x.Q("versions", s3x.Bare, "max-keys", v), s3x.Q("uploads", s3x.Bare, "max-uploads", v)} {
+				if _, d := check(lreq{Method: "GET", Bucket: b, Query: q, Family: "edgeInts"}); len(d) > 0 {
+					return d
+				}
+			}
+		}
 		for n := 1; n <= 4; n++ {
 			for _, delim := range []string{"", "/"} {
 				q := func(kv ...string) [][2]string {
@@ -277,6 +287,16 @@ func (e *c09Env) sweep(cs c09Case) []disc {
 				p := strings.SplitN(id, "\x00", 3)
 				if p[1] != b {
 					continue
+				}
+				if n == 1 {
+					// the integer parameters at the edges of their types, on an upload that exists
+					for _, v := range c09EdgeInts {
+						for _, name := range []string{"part-number-marker", "max-parts"} {
+							if _, d := check(lreq{Method: "GET", Bucket: b, Key: p[2], Query: s3x.Q("uploadId", p[0], name, v), Family: "listParts"}); len(d) > 0 {
+								return d
+							}
+						}
+					}
 				}
 				for _, marker := range []string{"", "1", "2", "3", "10000"} {
 					kv := []string{"uploadId", p[0], "max-parts", fmt.Sprint(n)}
